@@ -26,18 +26,18 @@ type fnSpec struct {
 
 var fnSpecs = []fnSpec{
 	// existence
-	{Name: "empty", Recv: "%ints", Aggregate: true, Example: "%none.empty()", Want: "[Boolean:true]", Spec: "N1"},
+	{Name: "empty", Recv: "%ints", Aggregate: true, Example: `%none.empty().toString() & %ints.empty().toString() & %strs.take(2).empty().toString()`, Want: `[String:"truefalsefalse"]`, Spec: "N1"},
 	{Name: "exists", Max: 1, Recv: "%ints", Args: []string{"$this > 1"}, Kinds: []string{"crit"}, Aggregate: true, Example: "%ints.exists($this > 2147483646)", Want: "[Boolean:true]", Spec: "N1"},
 	{Name: "all", Min: 1, Max: 1, Recv: "%ints", Args: []string{"$this > 0"}, Kinds: []string{"crit"}, Aggregate: true, Example: "%ints.all($this > 1)", Want: "[Boolean:false]", Spec: "N1"},
-	{Name: "allTrue", Recv: "%bools", Aggregate: true, Example: "%bools.allTrue()", Want: "[Boolean:false]", Spec: "N1"},
-	{Name: "anyTrue", Recv: "%bools", Aggregate: true, Example: "%bools.anyTrue()", Want: "[Boolean:true]", Spec: "N1"},
-	{Name: "allFalse", Recv: "%bools", Aggregate: true, Example: "%falses.allFalse()", Want: "[Boolean:true]", Spec: "N1"},
-	{Name: "anyFalse", Recv: "%bools", Aggregate: true, Example: "%trues.anyFalse()", Want: "[Boolean:false]", Spec: "N1"},
+	{Name: "allTrue", Recv: "%bools", Aggregate: true, Example: `%bools.allTrue().toString() & %trues.allTrue().toString() & %falses.allTrue().toString()`, Want: `[String:"falsetruefalse"]`, Spec: "N1"},
+	{Name: "anyTrue", Recv: "%bools", Aggregate: true, Example: `%bools.anyTrue().toString() & %trues.anyTrue().toString() & %falses.anyTrue().toString() & %bools.skip(1).anyTrue().toString() & %bools.take(2).anyTrue().toString()`, Want: `[String:"truetruefalsetruetrue"]`, Spec: "N1"},
+	{Name: "allFalse", Recv: "%bools", Aggregate: true, Example: `%bools.allFalse().toString() & %trues.allFalse().toString() & %falses.allFalse().toString()`, Want: `[String:"falsefalsetrue"]`, Spec: "N1"},
+	{Name: "anyFalse", Recv: "%bools", Aggregate: true, Example: `%bools.anyFalse().toString() & %trues.anyFalse().toString() & %falses.anyFalse().toString()`, Want: `[String:"truefalsetrue"]`, Spec: "N1"},
 	{Name: "subsetOf", Min: 1, Max: 1, Recv: "%ints", Args: []string{"%ints"}, Kinds: []string{"coll"}, Example: "%ints.take(1).subsetOf(%ints)", Want: "[Boolean:true]", Spec: "N1"},
 	{Name: "supersetOf", Min: 1, Max: 1, Recv: "%ints", Args: []string{"%ints"}, Kinds: []string{"coll"}, Example: "%ints.supersetOf(%ints.take(1))", Want: "[Boolean:true]", Spec: "N1"},
 	{Name: "count", Recv: "%ints", Aggregate: true, Example: "%ints.count()", Want: "[Integer:5]", Spec: "N1"},
-	{Name: "distinct", Recv: "%ints", Example: "%strs.distinct().count()", Want: "[Integer:3]", Spec: "N1"},
-	{Name: "isDistinct", Recv: "%ints", Aggregate: true, Example: "%strs.isDistinct()", Want: "[Boolean:false]", Spec: "N1"},
+	{Name: "distinct", Recv: "%ints", Example: `%strs.distinct()`, Want: `[String:"b", String:"a", String:"é"]`, Spec: "N1"},
+	{Name: "isDistinct", Recv: "%ints", Aggregate: true, Example: `%strs.isDistinct().toString() & %strs.take(2).isDistinct().toString()`, Want: `[String:"falsetrue"]`, Spec: "N1"},
 	// filtering and projection
 	{Name: "where", Min: 1, Max: 1, Recv: "%ints", Args: []string{"$this > 1"}, Kinds: []string{"crit"}, Example: "%ints.where($this = 1)", Want: "[Integer:1, Decimal:1]", Spec: "N1"},
 	{Name: "select", Min: 1, Max: 1, Recv: "%ints", Args: []string{"$this"}, Kinds: []string{"crit"}, Example: "%strs.select($this & 'x')", Want: `[String:"bx", String:"ax", String:"bx", String:"éx"]`, Spec: "N1"},
@@ -53,36 +53,36 @@ var fnSpecs = []fnSpec{
 	{Name: "intersect", Min: 1, Max: 1, Recv: "%ints", Args: []string{"%ints"}, Kinds: []string{"coll"}, Example: "%strs.intersect(%strs.take(2))", Want: `[String:"b", String:"a"]`, Spec: "N1"},
 	{Name: "exclude", Min: 1, Max: 1, Recv: "%ints", Args: []string{"%ints"}, Kinds: []string{"coll"}, Example: "%strs.exclude(%strs.take(2))", Want: `[String:"é"]`, Spec: "N1"},
 	// combining
-	{Name: "union", Min: 1, Max: 1, Recv: "%ints", Args: []string{"%ints"}, Kinds: []string{"coll"}, Spec: "N1"},
-	{Name: "combine", Min: 1, Max: 1, Recv: "%ints", Args: []string{"%ints"}, Kinds: []string{"coll"}, Spec: "N1"},
+	{Name: "union", Min: 1, Max: 1, Recv: "%ints", Args: []string{"%ints"}, Kinds: []string{"coll"}, Example: `%strs.union(%strs.take(1))`, Want: `[String:"b", String:"a", String:"é"]`, Spec: "N1"},
+	{Name: "combine", Min: 1, Max: 1, Recv: "%ints", Args: []string{"%ints"}, Kinds: []string{"coll"}, Example: `%strs.take(2).combine(%strs.take(1))`, Want: `[String:"b", String:"a", String:"b"]`, Spec: "N1"},
 	// conversion
 	{Name: "iif", Min: 2, Max: 3, Recv: "%ints", Args: []string{"true", "1", "2"}, Kinds: []string{"crit", "coll", "coll"}, Aggregate: true, Example: "iif(1 > 2, 'a', 'b')", Want: `[String:"b"]`, Spec: "N1"},
-	{Name: "toBoolean", Recv: "'true'", Example: "'true'.toBoolean()", Want: "[Boolean:true]", Spec: "N1"},
-	{Name: "convertsToBoolean", Recv: "'true'", Example: "'abc'.convertsToBoolean()", Want: "[Boolean:false]", Spec: "N1"},
+	{Name: "toBoolean", Recv: "'true'", Example: `'true'.toBoolean().toString() & 'false'.toBoolean().toString() & 'abc'.toBoolean().toString()`, Want: `[String:"truefalse"]`, Spec: "N1"},
+	{Name: "convertsToBoolean", Recv: "'true'", Example: `'abc'.convertsToBoolean().toString() & 'true'.convertsToBoolean().toString() & '2'.convertsToBoolean().toString()`, Want: `[String:"falsetruefalse"]`, Spec: "N1"},
 	{Name: "toInteger", Recv: "'1'", Example: "'42'.toInteger()", Want: "[Integer:42]", Spec: "N1"},
-	{Name: "convertsToInteger", Recv: "'1'", Example: "'1.5'.convertsToInteger()", Want: "[Boolean:false]", Spec: "N1"},
+	{Name: "convertsToInteger", Recv: "'1'", Example: `'1.5'.convertsToInteger().toString() & '15'.convertsToInteger().toString() & 'true'.convertsToInteger().toString() & '150'.convertsToInteger().toString()`, Want: `[String:"falsetruefalsetrue"]`, Spec: "N1"},
 	{Name: "toDate", Recv: "'2020-01-01'", Example: "'2020-01-02'.toDate()", Want: "[Date:2020-01-02]", Spec: "N1"},
-	{Name: "convertsToDate", Recv: "'2020-01-01'", Example: "'2020-01-02T10:00:00Z'.convertsToDate()", Want: "[Boolean:false]", Spec: "N1"},
+	{Name: "convertsToDate", Recv: "'2020-01-01'", Example: `'2020-01-02T10:00:00Z'.convertsToDate().toString() & '2020-01-02'.convertsToDate().toString() & '10:00:00'.convertsToDate().toString()`, Want: `[String:"falsetruefalse"]`, Spec: "N1"},
 	{Name: "toDateTime", Recv: "'2020-01-01'", Example: "'2020-01-02T10:00:00Z'.toDateTime()", Want: "[DateTime:2020-01-02T10:00:00Z]", Spec: "N1"},
-	{Name: "convertsToDateTime", Recv: "'2020-01-01'", Example: "'T10:00'.convertsToDateTime()", Want: "[Boolean:false]", Spec: "N1"},
+	{Name: "convertsToDateTime", Recv: "'2020-01-01'", Example: `'2020-01-02T10:00:00Z'.convertsToDateTime().toString() & '2020-01-02'.convertsToDateTime().toString() & '10:00:00'.convertsToDateTime().toString()`, Want: `[String:"truetruefalse"]`, Spec: "N1"},
 	{Name: "toDecimal", Recv: "'1.5'", Example: "'1.50'.toDecimal()", Want: "[Decimal:1.5]", Spec: "N1"},
-	{Name: "convertsToDecimal", Recv: "'1.5'", Example: "'1.5.5'.convertsToDecimal()", Want: "[Boolean:false]", Spec: "N1"},
+	{Name: "convertsToDecimal", Recv: "'1.5'", Example: `'1.5.5'.convertsToDecimal().toString() & '1.5'.convertsToDecimal().toString() & '5 days'.convertsToDecimal().toString()`, Want: `[String:"falsetruefalse"]`, Spec: "N1"},
 	{Name: "toQuantity", Max: 1, Recv: "5", Args: []string{"'mg'"}, Kinds: []string{"single"}, Example: "5.toQuantity() is System.Quantity", Want: "[Boolean:true]", Spec: "N1"},
-	{Name: "convertsToQuantity", Max: 1, Recv: "5", Args: []string{"'mg'"}, Kinds: []string{"single"}, Example: "'abc'.convertsToQuantity()", Want: "[Boolean:false]", Spec: "N1"},
+	{Name: "convertsToQuantity", Max: 1, Recv: "5", Args: []string{"'mg'"}, Kinds: []string{"single"}, Example: `'1.5.5'.convertsToQuantity().toString() & '1.5'.convertsToQuantity().toString() & '5 days'.convertsToQuantity().toString()`, Want: `[String:"falsetruetrue"]`, Spec: "N1"},
 	{Name: "toString", Recv: "1", Example: "42.toString()", Want: `[String:"42"]`, Spec: "N1"},
-	{Name: "convertsToString", Recv: "1", Example: "42.convertsToString()", Want: "[Boolean:true]", Spec: "N1"},
+	{Name: "convertsToString", Recv: "1", Example: `'abc'.convertsToString().toString() & 42.convertsToString().toString() & %name.convertsToString().toString()`, Want: `[String:"truetruefalse"]`, Spec: "N1"},
 	{Name: "toTime", Recv: "'10:00:00'", Example: "'10:30:00'.toTime()", Want: "[Time:10:30:00]", Spec: "N1"},
-	{Name: "convertsToTime", Recv: "'10:00:00'", Example: "'2020-01-01'.convertsToTime()", Want: "[Boolean:false]", Spec: "N1"},
+	{Name: "convertsToTime", Recv: "'10:00:00'", Example: `'2020-01-02T10:00:00Z'.convertsToTime().toString() & '2020-01-02'.convertsToTime().toString() & '10:00:00'.convertsToTime().toString()`, Want: `[String:"falsefalsetrue"]`, Spec: "N1"},
 	// strings
 	{Name: "indexOf", Min: 1, Max: 1, Recv: "'abcdef'", Args: []string{"'cd'"}, Kinds: []string{"single"}, Example: "'abcdef'.indexOf('cd')", Want: "[Integer:2]", Spec: "N1"},
 	{Name: "substring", Min: 1, Max: 2, Recv: "'abcdef'", Args: []string{"1", "2"}, Kinds: []string{"single", "single"}, Example: "'abcdef'.substring(1, 2)", Want: `[String:"bc"]`, Spec: "N1"},
 	{Name: "startsWith", Min: 1, Max: 1, Recv: "'abcdef'", Args: []string{"'ab'"}, Kinds: []string{"single"}, Example: "'abcdef'.startsWith('ab') and 'abcdef'.startsWith('ef').not()", Want: "[Boolean:true]", Spec: "N1"},
 	{Name: "endsWith", Min: 1, Max: 1, Recv: "'abcdef'", Args: []string{"'ef'"}, Kinds: []string{"single"}, Example: "'abcdef'.endsWith('ef') and 'abcdef'.endsWith('ab').not()", Want: "[Boolean:true]", Spec: "N1"},
-	{Name: "contains", Min: 1, Max: 1, Recv: "'abcdef'", Args: []string{"'cd'"}, Kinds: []string{"single"}, Example: "'abcdef'.contains('cd') and 'abcdef'.contains('dc').not()", Want: "[Boolean:true]", Spec: "N1"},
+	{Name: "contains", Min: 1, Max: 1, Recv: "'abcdef'", Args: []string{"'cd'"}, Kinds: []string{"single"}, Example: `'abcdef'.contains('cd') and 'abcdef'.contains('dc').not() and 'abc'.contains('.c').not()`, Want: `[Boolean:true]`, Spec: "N1"},
 	{Name: "upper", Recv: "'abc'", Example: "'aBc'.upper()", Want: `[String:"ABC"]`, Spec: "N1"},
 	{Name: "lower", Recv: "'ABC'", Example: "'aBc'.lower()", Want: `[String:"abc"]`, Spec: "N1"},
 	{Name: "replace", Min: 2, Max: 2, Recv: "'abcabc'", Args: []string{"'b'", "'x'"}, Kinds: []string{"single", "single"}, Example: "'a.c.'.replace('.', 'x')", Want: `[String:"axcx"]`, Spec: "N1"},
-	{Name: "matches", Min: 1, Max: 1, Recv: "'abc'", Args: []string{"'a.c'"}, Kinds: []string{"single"}, Example: "'abc'.matches('^a.c$')", Want: "[Boolean:true]", Spec: "N1"},
+	{Name: "matches", Min: 1, Max: 1, Recv: "'abc'", Args: []string{"'a.c'"}, Kinds: []string{"single"}, Example: `'abc'.matches('^a.c$').toString() & 'abd'.matches('^a.c$').toString()`, Want: `[String:"truefalse"]`, Spec: "N1"},
 	{Name: "replaceMatches", Min: 2, Max: 2, Recv: "'abcabc'", Args: []string{"'b'", "'x'"}, Kinds: []string{"single", "single"}, Example: "'a.cb'.replaceMatches('[a-b]', 'x')", Want: `[String:"x.cx"]`, Spec: "N1"},
 	{Name: "length", Recv: "'abc'", Example: "'abcd'.length()", Want: "[Integer:4]", Spec: "N1"},
 	{Name: "toChars", Recv: "'abc'", Example: "'ab'.toChars()", Want: `[String:"a", String:"b"]`, Spec: "N1"},
@@ -96,17 +96,17 @@ var fnSpecs = []fnSpec{
 	{Name: "power", Min: 1, Max: 1, Recv: "2", Args: []string{"3"}, Kinds: []string{"single"}, Example: "2.power(3)", Want: "[Integer:8]", Spec: "N1"},
 	{Name: "round", Max: 1, Recv: "1.55", Args: []string{"1"}, Kinds: []string{"single"}, Example: "1.26.round(1)", Want: "[Decimal:1.3]", Spec: "N1"},
 	{Name: "sqrt", Recv: "4", Example: "16.sqrt()", Want: "[Decimal:4]", Spec: "N1"},
-	{Name: "truncate", Recv: "1.5", Example: "(0 - 1.5).truncate()", Want: "[Integer:-1]", Spec: "N1"},
+	{Name: "truncate", Recv: "1.5", Example: `(0 - 1.5).truncate().toString() & 1.5.truncate().toString()`, Want: `[String:"-11"]`, Spec: "N1"},
 	// tree navigation
-	{Name: "children", Recv: "%name", Example: "%name.children().count()", Want: "[Integer:4]", Spec: "N1"},
-	{Name: "descendants", Recv: "%name", Example: "%names.take(1).descendants().count() >= %names.take(1).children().count()", Want: "[Boolean:true]", Spec: "N1"},
+	{Name: "children", Recv: "%name", Example: `%pat.children().count() < %pat.descendants().count() and %name.children().count() = 4`, Want: `[Boolean:true]`, Spec: "N1"},
+	{Name: "descendants", Recv: "%name", Example: `%pat.descendants().count() > %pat.children().count() and %name.descendants().count() = 4`, Want: `[Boolean:true]`, Spec: "N1"},
 	// utility
 	{Name: "trace", Min: 1, Max: 2, Recv: "%ints", Args: []string{"'t'", "$this"}, Kinds: []string{"single", "crit"}, Spec: "N1"},
 	{Name: "now", Aggregate: true, Example: "now() is System.DateTime", Want: "[Boolean:true]", Spec: "N1"},
 	{Name: "timeOfDay", Aggregate: true, Example: "timeOfDay() is System.Time", Want: "[Boolean:true]", Spec: "N1"},
 	{Name: "today", Aggregate: true, Example: "today() is System.Date", Want: "[Boolean:true]", Spec: "N1"},
 	// boolean logic
-	{Name: "not", Recv: "true", Example: "(1 > 2).not()", Want: "[Boolean:true]", Spec: "N1"},
+	{Name: "not", Recv: "true", Example: `(1 > 2).not().toString() & (1 < 2).not().toString() & %none.not().toString()`, Want: `[String:"truefalse"]`, Spec: "N1"},
 	// R4 / STU
 	{Name: "extension", Min: 1, Max: 1, Recv: "%pat", Args: []string{"'http://example.org/a'"}, Kinds: []string{"single"}, Example: "%pat.extension('http://example.org/b').value", Want: "[Integer{value:7}]", Spec: "R4"},
 	{Name: "join", Max: 1, Recv: "%strs", Args: []string{"','"}, Kinds: []string{"single"}, Example: "%strs.join('-')", Want: `[String:"b-a-b-é"]`, Spec: "STU"},
